@@ -72,9 +72,11 @@ ValueOK(d, c) ==
 
 \* The verdict the statement demands.  A field without explicit presence cannot distinguish "absent" from its
 \* zero value: for such a field the zero value is a value like any other, and `required` excludes it.
+\* (a primary key is required whether or not the declaration says so)
+Req(d) == d.pres = "required" \/ (d.ent = "primary" /\ d.card \in {"single", "array"})
 Allows(d, c) ==
-    IF c.t = "absent" THEN d.pres # "required"
-    ELSE (d.pres = "required" => ~IsZero(c)) /\ ValueOK(d, c)
+    IF c.t = "absent" THEN ~Req(d)
+    ELSE (Req(d) => ~IsZero(c)) /\ ValueOK(d, c)
 
 (* ---------------- candidates around every induced boundary ---------------- *)
 
@@ -192,7 +194,7 @@ NoVacuousRule ==
               \/ \E c \in CandSet(decl) : ~Allows(decl, c) /\ Allows(Without(decl, a), c)
               \* a bound made redundant by another rule of the same declaration (e.g. `in` inside `notIn`'s complement)
               \/ \A c \in CandSet(decl) : Allows(decl, c) = Allows(Without(decl, a), c)
-        /\ (decl.pres = "required" =>
+        /\ (decl.pres = "required" /\ decl.ent # "primary" =>
               \E c \in CandSet(decl) : ~Allows(decl, c) /\ Allows([decl EXCEPT !.pres = "implicit"], c))
 
 \* both sides of every numeric bound are candidates
